@@ -386,22 +386,18 @@ def triage_harness(h, r):
         json.dumps(r.get("error", {}))[:200]
 
 
-def extract_playback_test(out):
-    """Kani prints one unit test per cover/failed check; keep the one generated for a failed
-    assertion / safety check (not for a `cover`)."""
-    blocks = re.findall(r"```\s*\n(.*?)```", out, re.S)
-    best = None
+def extract_playback_tests(out):
+    """Kani prints one unit test per failed check and per cover (identical value vectors are
+    emitted once, under whichever came first).  Tests generated for a failed assertion / safety check
+    come first, cover-tests after them as fall-back candidates."""
+    blocks = [b for b in re.findall(r"```\s*\n(.*?)```", out, re.S) if "#[test]" in b]
+    blocks.sort(key=lambda b: 1 if re.search(r"Check for `cover`", b) else 0)
+    res = []
     for b in blocks:
-        if "#[test]" not in b:
-            continue
-        if re.search(r"Check for `cover`", b):
-            continue
-        best = b
-        break
-    if best is None:
-        return None, None
-    n = re.search(r"fn\s+(kani_concrete_playback_\w+)", best)
-    return best, (n.group(1) if n else None)
+        n = re.search(r"fn\s+(kani_concrete_playback_\w+)", b)
+        if n:
+            res.append((b, n.group(1)))
+    return res
 
 
 def native_replay(scratch, target, unit, test_code, test_name, logdir, extra=()):
@@ -411,7 +407,8 @@ def native_replay(scratch, target, unit, test_code, test_name, logdir, extra=())
     idx = txt.rstrip().rfind("}")
     txt = txt[:idx] + "\n" + test_code + "\n}\n"
     open(p, "w").write(txt)
-    cmd = ["cargo", "kani", "playback", "-p", "serde_avro_fast", "-Z", "concrete-playback"] + list(extra) + \
+    cmd = ["cargo", "kani", "playback", "-p", "serde_avro_fast", "-Z", "concrete-playback"] + \
+          [x for x in extra if not x.startswith("CBMC:")] + \
           ["--", test_name, "--nocapture"]
     rc, out, wall, _ = run_cmd(cmd, scratch, env={"CARGO_TARGET_DIR": target + "-playback"}, timeout=900,
                                logfile=os.path.join(logdir, f"playback-{test_name}.log"))
@@ -757,7 +754,7 @@ def handle_failure(pid, tier, ent, h, scratch, target, logdir, baseline, known, 
     fh = unit.full_harness(h)
     cmd = kani_cmd(target, [fh], 1, None, 0, playback=True, extra=P.PROPS[pid].get("kani_args", ()))
     rc, out, wall, _ = run_cmd(cmd, scratch, timeout=3600, logfile=os.path.join(logdir, f"cex-{h['name']}.log"))
-    code, tname = extract_playback_test(out)
+    cands = extract_playback_tests(out)
     rp = os.path.join(VERIF, "replays", pid)
     os.makedirs(rp, exist_ok=True)
     rfile = os.path.join(rp, f"{h['name']}.json")
@@ -765,18 +762,22 @@ def handle_failure(pid, tier, ent, h, scratch, target, logdir, baseline, known, 
            "function_under_contract": h.get("fn"), "failed_checks": ent.get("failed_checks"),
            "tier": tier, "verifier": "kani/cbmc"}
     nofail = True
-    if code and tname:
+    if not cands:
+        rec["note"] = "kani produced no concrete playback test for this failure"
+        rec["verifier_output"] = out[-4000:]
+    pristine = open(os.path.join(scratch, unit.inject_into)).read()
+    for code, tname in cands[:3]:
+        open(os.path.join(scratch, unit.inject_into), "w").write(pristine)
+        nr = native_replay(scratch, target, unit, code, tname, logdir, extra=P.PROPS[pid].get("kani_args", ()))
         rec["playback_test"] = code
         rec["playback_test_name"] = tname
         vals = re.findall(r"//\s*(.+)\n\s*vec!\[([^\]]*)\]", code)
         rec["concrete_values"] = [{"value": a.strip(), "bytes": b.strip()} for a, b in vals][:64]
-        nr = native_replay(scratch, target, unit, code, tname, logdir, extra=P.PROPS[pid].get("kani_args", ()))
         rec["native_replay"] = nr
         if nr["failed_natively"]:
             nofail = False
-    else:
-        rec["note"] = "kani produced no concrete playback test for this failure"
-        rec["verifier_output"] = out[-4000:]
+            break
+    open(os.path.join(scratch, unit.inject_into), "w").write(pristine)
     json.dump(rec, open(rfile, "w"), indent=1)
     ent["replay"] = rfile
     ent["replayed_natively"] = not nofail
